@@ -1,6 +1,6 @@
 """C04 -- the outbound message hides the password (uniform, password-independent)."""
 import z3
-from symx.core import Ctx, SymInt, SymBytes, SymBool, T, B, model_int
+from symx.core import Ctx, SymInt, SymBytes, SymBool, T, B, PathAbort, model_int
 from symx import loader, env
 from symx.absgroup import AbsGroup, norm
 from symx.proto import (Entropy, setup_hash_axioms, outcome, okind, orders, new_instance, sym_inputs, abstract_params,
@@ -52,6 +52,8 @@ def job_message_form(J, qn, cls):
 
         def ent(n):
             calls.append(n)
+            if len(calls) > 12:
+                raise PathAbort("entropy requested more than 12 times by three start() calls")
             return ebytes
         a = new_instance(cls, params, pw, idA, idB, ent)
         b = new_instance(cls, params, pw, idA2, idB2, ent)       # other identities
@@ -77,6 +79,7 @@ def job_message_form(J, qn, cls):
                 cex=cex, oracle="hiding")
         J.claim(r, "x = random_scalar(entropy bytes): a function of the entropy only", x == g.RS(w["ebytes"].value()),
                 cex=cex, oracle="hiding")
+        J.claim(r, "each start() draws entropy exactly once (no conditional re-draw)", len(w["calls"]) == 3, cex=cex, oracle="hiding")
         names = set()
 
         def walk(e):
